@@ -222,7 +222,8 @@ def logical_reference_violations(db: str) -> list[tuple]:
 def run_with_faults(sched_seed: int, prog: Any, db_path: str, session: enginea.ProgramSession,
                     plan: Optional[DbFaultPlan] = None, limits: Optional[dict] = None,
                     run_kwargs: Optional[dict] = None, policy: Optional[dict] = None,
-                    extra_setup: Optional[Callable] = None, step_cap: int = 20000):
+                    extra_setup: Optional[Callable] = None, step_cap: int = 20000,
+                    ns: Optional[int] = None):
     """
     One simulated execution whose schedule is a pure function of `sched_seed` (so that a
     crash sweep re-runs the *same* schedule with the crash point moved).
@@ -240,7 +241,7 @@ def run_with_faults(sched_seed: int, prog: Any, db_path: str, session: enginea.P
     try:
         res = enginea.simulate(ch, prog, db_path=db_path, session=session, setup=setup,
                                limits=limits, run_kwargs=run_kwargs, policy=policy,
-                               step_cap=step_cap)
+                               step_cap=step_cap, ns=ns)
     finally:
         faults.detach()
     return res, faults
